@@ -664,10 +664,40 @@ class CompMixin:
         self.used_assumptions.add("A-GEN")
         return self.ev_ListComp(e, st)
 
+    def comp_static(self, e, g, st):
+        """A comprehension over a static sequence (a literal list of tuples) whose conditions are decided for every element:
+        the static sequence of the selected elements.  None when it does not apply."""
+        if not isinstance(g.iter, ast.Name):
+            return None
+        src = st.env.get(g.iter.id)
+        if src is None or src.ty.name != "Tuple":
+            return None
+        out = []
+        for item in src.t:
+            sub = st.copy()
+            sub.env = dict(st.env)
+            sub.spec = True
+            self.assign(g.target, item, sub)
+            keep = True
+            for c in g.ifs:
+                t = z3.simplify(self.truth(self.eval(c, sub), sub))
+                if z3.is_true(t):
+                    continue
+                if z3.is_false(t):
+                    keep = False
+                    break
+                return None
+            if keep:
+                out.append(self.eval(e.elt, sub))
+        return Val(TupleT([v.ty for v in out]), out, was_list=True)
+
     def ev_ListComp(self, e, st):
         if len(e.generators) != 1 or e.generators[0].is_async:
             raise Unsupported("nested comprehension")
         g = e.generators[0]
+        static = self.comp_static(e, g, st)
+        if static is not None:
+            return static
         desc = self.iter_desc(g.iter, st)
         n = desc.length(st)
         ns = z3.simplify(n)
